@@ -71,6 +71,96 @@ def dialect_reader(src, file, helpers_generic, bv):
     return out
 
 
+def e24(rep, src):
+    """Dialects that cannot give a CTE a column list spell the projection of a JOIN themselves: left fields from the left input, right fields from the right one."""
+    rep.rule(
+        "E24",
+        "every `join_projection` override (dialect_translation/*.rs) qualifies the fields it takes from `join.left()` with `Join::left_name()` and those from `join.right()` with `Join::right_name()`, "
+        "left fields first (the items are zipped with `join.schema()`, which lists the left fields first)",
+        floor=4,
+        necessary="`_LEFT_.score AS field_k` for a field of the right input returns the left values when both inputs have such a column and is refused by the engine otherwise: "
+        "not the same result / output column as the other dialects",
+    )
+
+    def root(e):
+        """the `join.left()` / `join.right()` at the root of an iterator chain -> 'left' | 'right' | None"""
+        while True:
+            while e["k"] in ("ref", "paren"):
+                e = e["e"]
+            if e["k"] == "mcall":
+                if e["m"] in ("left", "right") and not e["args"] and e["recv"]["k"] == "path":
+                    return e["m"]
+                e = e["recv"]
+            else:
+                return None
+
+    n_over = 0
+    for f in src.find_fns(name="join_projection"):
+        if not f.file.startswith("dialect_translation/") or not f.body or f.test or f.file.endswith("/mod.rs"):
+            continue
+        n_over += 1
+        short = f.file.split("/")[-1][:-3]
+        from .canon import canon_view
+
+        f = canon_view(f, src, helpers=False)  # `let left_columns = join.left()..map(..); left_columns.chain(right_columns)` is read through
+        # scopes that iterate over one input: closures of an iterator chain rooted at join.left() / join.right(), and `for x in join.left()..` loops
+        scopes = []
+        for m in find(f.body, "mcall"):
+            for a in m["args"]:
+                if a["k"] == "closure" and root(m["recv"]) is not None:
+                    scopes.append((root(m["recv"]), a["body"]))
+        for lp in find(f.body, "for"):
+            if root(lp["e"]) is not None:
+                scopes.append((root(lp["e"]), lp["body"]))
+        quals, order = 0, []
+        def src_order(n):  # source order = order in which the items are produced (chain receiver before its argument, first loop before the second)
+            if isinstance(n, list):
+                for x in n:
+                    yield from src_order(x)
+            elif isinstance(n, dict):
+                if "k" in n:
+                    yield n
+                keys = [k_ for k_ in n if k_ not in ("k", "l")]
+                if n.get("k") == "mcall":
+                    keys = ["recv"] + [k_ for k_ in keys if k_ != "recv"]
+                elif n.get("k") == "for":
+                    keys = ["pat", "e", "body"]
+                for k_ in keys:
+                    if isinstance(n.get(k_), (dict, list)):
+                        yield from src_order(n[k_])
+
+        for c in src_order(f.body):
+            if c.get("k") != "call":
+                continue
+            p = path_of(c["f"]) or ""
+            if not p.endswith("qcol") or not c["args"]:
+                continue
+            inside = [(sd, body) for sd, body in scopes if any(c is y for y in walk(body))]
+            side = min(inside, key=lambda t: sum(1 for _ in walk(t[1])))[0] if inside else None  # the innermost scope
+            q = c["args"][0]
+            qp = path_of(q["f"]) if q["k"] == "call" else None
+            qside = "left" if (qp or "").endswith("left_name") else "right" if (qp or "").endswith("right_name") else None
+            key = "%s::join_projection@%s" % (short, side or "?")
+            quals += 1
+            rep.instance("E24", key, {"translator": short, "fields_of": side, "qualified_with": qp})
+            if side is None or qside is None:
+                rep.undecidable("E24", key, "cannot read which input the fields come from / which qualifier is used (`%s`)" % show(c, 60), f.where())
+                continue
+            if side != qside:
+                rep.violation("E24", key, "%s::join_projection qualifies the fields of join.%s() with Join::%s_name(): the %s columns are read from the other input" % (short, side, qside, side), "src/%s:%d" % (f.file, c["l"]))
+            if not order or order[-1] != side:
+                order.append(side)
+        if quals >= 2:
+            key = "%s::join_projection@order" % short
+            rep.instance("E24", key, {"translator": short, "order": order})
+            if order != ["left", "right"]:
+                rep.violation("E24", key, "%s::join_projection lists the fields in the order %s, but the aliases come from join.schema() (left fields first)" % (short, order), f.where())
+        if quals < 2:
+            rep.undecidable("E24", "%s::join_projection" % short, "expected the fields of both inputs to be qualified through Expr::qcol(..), found %d such call(s)" % quals, f.where())
+    if n_over == 0:
+        rep.instance("E24", "no-override", {"overrides": 0}, nontrivial=False)
+
+
 def run(rep):
     rep.explanation = (
         "Per-dialect table agreement. The renderer side (operator variant -> translator method (override or default) -> SQL spelling) is read from the type-resolved MIR; the reader side "
@@ -265,6 +355,9 @@ def run(rep):
     c08.e19(rep, src)
     c08.e20(rep, src)
     c08.e21(rep, src)
+    c08.e22(rep, src)
+    c08.e23(rep, src)
+    e24(rep, src)
     rep.assume("the reader entry of a dialect is QueryToRelationTranslator::try_function (its override, else the trait default which special-cases log / ln / md5 and defers to sql/expr.rs)")
     rep.assume("sqlparser source in ~/.cargo/registry is the version pinned in /repo/Cargo.lock")
 
